@@ -152,6 +152,14 @@ def run(res, tier, seed):
         raise C.Fail("harness build failed (does /repo still compile with -tags verif?):\n" + out[-3000:])
     scs, metas = matrix(tier, rnd)
     results, dt = P.run_scenarios("C13", scs)
+    if tier == "thorough":
+        # the other direction of the correspondence (code within model), see lib/lifecycle.trace_inclusion
+        from .. import lifecycle as _L
+        _scs = scs
+        _stuck = _L.trace_inclusion(res, "C13", [(a, {"cause": "?", "point": "?"}, b) for a, b in zip(_scs, results)], 16)
+        if _stuck:
+            res.violation("C13:obligation:trace", "the callback sequence of a real run is not a path of the control skeleton (observation %d)" % _stuck[0][3],
+                          {"scenario": _stuck[0][0], "observations": _L.observations(_stuck[0][0], _stuck[0][2])[1]}, found_input=False)
     judge(res, metas, results, proofs_ok, broken, cex)
     return res.finish(rule="cause x point with callers of Wait(3) Send(2) Println(2) Printf(1) Quit blocked in the call when the cause strikes and a second wave of callers after Run has returned; Wait entered before Run; start-up failures (no tty, regular-file input); Send before start; distinct = (cause, point, waits-before-run)",
                       trusted_extra=TRUSTED)
